@@ -50,6 +50,11 @@ def jobs(tier, seed):
     J.append(Job('strings', 'harness.c02', 'h_encode_strings', {}, timeout=600, witnesses=['strings']))
     J.append(Job('strings-compressed', 'harness.c02', 'h_encode_strings', {'compressed': True}, timeout=600, witnesses=['strings']))
     J.append(Job('unexpanded-descriptors', 'harness.c02', 'h_unexpanded', {}, timeout=600, witnesses=['packed']))
+    # two subsets of uncompressed data whose bitmaps differ: every marker field must take the width / scale / reference of the
+    # element designated by ITS subset's bitmap
+    for name in ('sub223', 'stat224', 'diff225', 'rep232') + (('qa222', 'reuse-237', 'two-bitmaps') if thorough else ()):
+        J.append(Job('u2:' + name, 'harness.c02', 'h_encode', {'family': name, 'n_subsets': 2, 'max_factor': 1, 'nbits': 1024, 'no_missing': True},
+                     timeout=2400 if thorough else 900, witnesses=['encoded']))
     if thorough:
         for f in families.VALUE_FAMILIES:
             J.append(Job('u2:' + f['name'], 'harness.c02', 'h_encode', {'family': f['name'], 'n_subsets': 2, 'max_factor': 1, 'nbits': 1024},
